@@ -83,6 +83,13 @@ CHECKS.update({
         note='maximality / completeness / once-per-rotation of the produced openings are runtime sets and not decided', ref='3 C10'),
 })
 
+CHECKS.update({
+    'C16': dict(
+        level='other', technique='abstract interpretation with an object model (classes, prefixes as concrete strings, symbolic parameters); symbolic substitution for symmetry and half-maximum',
+        text='Static: evaluated normal forms of Gaussian/Lorentzian/pseudo-Voigt/polynomial(deg 1..6)/composite equal the closed forms; each peak is symmetric about loc and takes half its peak value at loc +/- fwhm/2 with the FWHM the model itself reports; units follow the parameters; results are prefix-independent; missing/unknown/un-prefixed names are refused; with_prefix acts on a copy.',
+        note='normalisation is a cited property of the closed forms; guess() not decided; scale >= 1e-15 assumed (clamp)', ref='3 C16'),
+})
+
 NA_REASON = 'check not built yet (planned: see DESIGN.md section 3)'
 
 
